@@ -7,7 +7,6 @@
 #include <sys/types.h>
 #define kill verif_kill            /* the real code's kill(w, SIGCONT) must not signal a real process */
 #include <signal.h>
-extern "C" int verif_kill(pid_t pid, int sig);
 #include "src/Platforms/Gcc/UtestPlatform.cpp"
 #undef kill
 #include "CppUTest/TestOutput.h"
@@ -36,7 +35,7 @@ static int my_waitpid(int pid, int *status, int options)
     if (o == O_STOP) stops++;
     return 4242;
 }
-extern "C" int verif_kill(pid_t pid, int sig) { kills++; if (pid != last_w || sig != SIGCONT || (last_status & 0xff) != 0x7f) bad_kills++; return 0; }
+extern "C" int verif_kill(pid_t pid, int sig) throw() { kills++; if (pid != last_w || sig != SIGCONT || (last_status & 0xff) != 0x7f) bad_kills++; return 0; }
 
 static int run_script(const char *what)
 {
